@@ -64,6 +64,12 @@ func Generate(r *prng.Rand, name string) *Schema {
 	g := &gen{r: r, nm: &namer{r: r.Fork("names"), used: map[string]bool{}}, s: &Schema{Name: name}}
 	g.cfg = GenConfig{MaxDefs: r.Range(1, 6), MaxFields: r.Range(1, 6), MaxDepth: r.Range(0, 3)}
 	nd := r.Range(1, g.cfg.MaxDefs)
+	if r.Chance(1, 12) {
+		// a LARGE program: dozens of definitions (thresholds on the number of definitions,
+		// name tables, per-file counters)
+		nd = r.Range(33, 70)
+		g.cfg.MaxFields = 3
+	}
 	for i := 0; i < nd; i++ {
 		g.def(i == nd-1)
 	}
@@ -78,8 +84,23 @@ func Generate(r *prng.Rand, name string) *Schema {
 		}
 	}
 	g.s.Defs = append(front, back...)
+	g.consts(len(front))
 	g.s.index()
 	return g.s
+}
+
+var constLiterals = [][2]string{{"int32", "-5"}, {"uint8", "0xff"}, {"int64", "-9223372036854775808"}, {"uint64", "18446744073709551615"},
+	{"float64", "1.5"}, {"float32", "-inf"}, {"float64", "nan"}, {"float64", "inf"}, {"bool", "true"}, {"bool", "false"},
+	{"string", "\"plain\""}, {"string", "\"with \\\"escapes\\\" and \\\\ slashes\""}, {"string", "\"two\nlines\""}, {"string", "\"\""},
+	{"guid", "\"e215a946-b26f-4567-a276-13136f0a1708\""}, {"uint16", "65535"}, {"int16", "-32768"}}
+
+// consts sprinkles constant definitions between the non-flag definitions.
+func (g *gen) consts(slots int) {
+	n := g.r.Intn(4)
+	for i := 0; i < n; i++ {
+		c := constLiterals[g.r.Intn(len(constLiterals))]
+		g.s.Consts = append(g.s.Consts, Const{Type: c[0], Name: "k" + g.nm.fresh(true), Literal: c[1], After: g.r.Intn(slots + 1)})
+	}
 }
 
 var tagComments = []string{"[tag(json:\"f,omitempty\")]", "[tag(db:\"col\")]", "[tag(flagged)]", "[tag(json:\"more colons::\")]"}
